@@ -355,6 +355,7 @@ impl S2 {
                 parts.push(format!("a{st}: {}", vals.join(" ")));
             }
         }
+        parts.extend(crate::gris::snap_parts(m));
         format!("snap n={} | {}", n, parts.join(" | "))
     }
 
